@@ -8,6 +8,7 @@
 //!   O0 / O1   open the writer without / with diff tracking
 //!   U..  update_rrset / D.. remove_rrset on three owner names (one of them new, one holding two records; one update
 //!        changes only the TTL of an RRset, one changes records and TTL)
+//!   Uy0  update_rrset with an RRset that holds no record (removes the type in the version being written)
 //!   RA  remove_all at the apex followed by writing the SOA back (the start of an AXFR-style replacement); the zone also
 //!       holds a delegation and a CNAME, which live in the nodes' "special" slot
 //!   C   commit(true) (the SOA serial is bumped so that a diff can be built; the writer stays and can be opened again), X  drop the writer without commit
@@ -182,8 +183,8 @@ fn check_reader(what: &str, reader: &dyn ReadableZone, want: &Content) -> Result
 }
 
 #[derive(Clone, Copy, Debug, PartialEq, Eq)]
-enum Op { R, W, P, A, O0, O1, Ux2, Ux13, Ux12t, Dx, Ug3, Dg, Uy8, Dy, RA, C, X }
-const OPS: [Op; 17] = [Op::R, Op::W, Op::P, Op::A, Op::O0, Op::O1, Op::Ux2, Op::Ux13, Op::Ux12t, Op::Dx, Op::Ug3, Op::Dg, Op::Uy8, Op::Dy, Op::RA, Op::C, Op::X];
+enum Op { R, W, P, A, O0, O1, Ux2, Ux13, Ux12t, Dx, Ug3, Dg, Uy8, Dy, Uy0, RA, C, X }
+const OPS: [Op; 18] = [Op::R, Op::W, Op::P, Op::A, Op::O0, Op::O1, Op::Ux2, Op::Ux13, Op::Ux12t, Op::Dx, Op::Ug3, Op::Dg, Op::Uy8, Op::Dy, Op::Uy0, Op::RA, Op::C, Op::X];
 
 struct World {
     zone: Zone,
@@ -208,7 +209,7 @@ impl World {
             Op::P => self.writer.is_some() && self.pending.is_none(),
             Op::A => self.writer.is_none() && self.pending.is_some(),
             Op::O0 | Op::O1 => self.writer.is_some() && self.node.is_none(),
-            Op::Ux2 | Op::Ux13 | Op::Ux12t | Op::Dx | Op::Ug3 | Op::Dg | Op::Uy8 | Op::Dy | Op::RA => self.node.is_some(),
+            Op::Ux2 | Op::Ux13 | Op::Ux12t | Op::Dx | Op::Ug3 | Op::Dg | Op::Uy8 | Op::Dy | Op::Uy0 | Op::RA => self.node.is_some(),
             Op::C => self.writer.is_some(),
             Op::X => self.writer.is_some(),
         }
@@ -272,6 +273,15 @@ impl World {
             Op::Dg => self.edit("g", None)?,
             Op::Uy8 => self.edit("y", Some((600, &[8])))?,
             Op::Dy => self.edit("y", None)?,
+            Op::Uy0 => {
+                // update_rrset with an RRset that holds no record: the type is gone from the version being written
+                // (and from no other); what the diff says about such a write is not judged
+                let node = self.node.as_ref().unwrap();
+                let child = now(node.update_child(Label::from_slice(b"y").unwrap()))?.map_err(|e| e.to_string())?;
+                now(child.update_rrset(a_rrset(600, &[])))?.map_err(|e| e.to_string())?;
+                self.staged.as_mut().unwrap().remove("y");
+                self.opens.1 = false;
+            }
             Op::RA => {
                 // the start of an AXFR-style replacement: everything below and at the apex goes (delegation and alias
                 // included), the SOA is written back at once
@@ -372,7 +382,7 @@ fn main() {
                 // interesting sequences contain a writer; skip sequences of readers only beyond length 2
                 if s.iter().all(|o| *o == Op::R) && s.len() > 1 { continue; }
                 // at most three edits per sequence keeps the space small without losing the two-edits-per-RRset cases
-                if s.iter().filter(|o| matches!(o, Op::Ux2 | Op::Ux13 | Op::Ux12t | Op::Dx | Op::Ug3 | Op::Dg | Op::Uy8 | Op::Dy | Op::RA)).count() > 3 { continue; }
+                if s.iter().filter(|o| matches!(o, Op::Ux2 | Op::Ux13 | Op::Ux12t | Op::Dx | Op::Ug3 | Op::Dg | Op::Uy8 | Op::Dy | Op::Uy0 | Op::RA)).count() > 3 { continue; }
                 count += 1;
                 let r = std::panic::catch_unwind(|| run(&s));
                 match r {
